@@ -244,7 +244,7 @@ class _G:
         if name == "Boolean":
             return rng.random() < 0.5
         if name == "ID":
-            return rng.choice(["id1", "123", 45, "", "a b", "007", "-5"])
+            return rng.choice(["id1", "123", 45, "", "a b", "007", "-5", "123\n", "-5\n", "0\n", "\n12", "1 "])
         ty = spec.type(name)
         if ty is None:
             return SKIP
@@ -347,10 +347,17 @@ class _G:
             roots.append(s)
             spec.subscription = s.name
         if rng.random() < 0.15:
-            # a conventional name used by a type that is not that root
+            # a conventional name used by an object type that is not that root
             cand = [n for n in ("Query", "Mutation", "Subscription") if n not in [r.name for r in roots]]
             if cand:
                 objs.append(Type("object", rng.choice(cand), self.text(0.2)))
+        if rng.random() < 0.3:
+            # ... or by a type of any other kind (build_ast_schema assigns roots purely by name)
+            taken = [r.name for r in roots] + [t.name for t in objs]
+            cand = [n for n in ("Query", "Mutation", "Subscription") if n not in taken]
+            pools = [l for l in (scalars, enums, inputs, ifaces, unions) if l]
+            if cand and pools:
+                rng.choice(rng.choice(pools)).name = rng.choice(cand)
         if rng.random() < 0.3:
             spec.desc = adversarial_text(rng) if self.adv else "schema doc"
         self.input_names = BUILTIN_SCALARS + [t.name for t in scalars + enums + inputs]
